@@ -54,7 +54,7 @@ pub fn gen(rng: &mut Rng, idx: usize, n: usize, thorough: bool) -> String {
     // sizes grow with the index so that the first failing case tends to be small
     let frac = (idx * 100) / n.max(1);
     let capmax = if frac < 30 { 2 } else if frac < 60 { 5 } else { 16 };
-    let default_cap = thorough && frac > 50 && rng.chance(1, 200);
+    let default_cap = thorough && frac > 50 && rng.chance(1, 2000); // a few long cases only: the unary-nat model is slow at 131072 slots
     let cap = rng.range(1, capmax);
     let maxops = if thorough { 400 } else { 120 };
     let nops = 1 + (frac * maxops) / 100 + rng.range(0, 5);
